@@ -43,6 +43,7 @@ func (o *Options) skipInit(pkgPath string) bool {
 }
 
 type Harness struct {
+	PreemptCalls string // import-path prefix: calls into these packages are preemption points (data-race windows between visible operations)
 	Name     string
 	Pkg      string
 	Fn       *ssa.Function
@@ -289,6 +290,11 @@ func findHarnesses(prog *ssa.Program, pkgs []*packages.Package, prop string, tie
 						h.Timers = atoi(1)
 					case "delays":
 						h.Delays = atoi(1)
+					case "preemptcalls":
+						// calls into packages with this import-path prefix are preemption points too
+						if len(f) > 1 {
+							h.PreemptCalls = f[1]
+						}
 					case "clock":
 						h.VirtualClock = len(f) > 1 && f[1] == "virtual"
 					case "native":
